@@ -21,14 +21,16 @@ pub mod c15;
 pub mod c16;
 pub mod c18;
 pub mod crash;
+pub mod sched;
 
 pub fn check(prop: &str, tier: Tier) -> i32 {
 	match prop {
 		"C01" => c01::check(tier),
 		"C02" => crash::check("C02", tier),
 		"C03" => crash::check("C03", tier),
-		"C07c" => crash::check("C07", tier),
 		"C04" => c04::check(tier),
+		"C05" => sched::check("C05", tier),
+		"C17" => sched::check("C17", tier),
 		"C06" => c06::check(tier),
 		"C07" => c07::check(tier),
 		"C08" => c08::check(tier),
@@ -64,6 +66,7 @@ pub fn replay(prop: &str, file: &str) -> i32 {
 	match prop {
 		"C06" | "C01" | "C07" | "C11" if r["engine"] == "world" => replay_world(prop, &r),
 		"C02" | "C03" | "C07" | "C07c" if r["engine"] == "crash" => crash::replay(if prop == "C07c" { "C07" } else { prop }, &r),
+		"C05" | "C17" | "C04" | "C01" | "C02" | "C04s" | "C01s" | "C02s" if r["engine"] == "schedx" => sched::replay(prop.trim_end_matches('s'), &r),
 		"C04" => c04::replay(&r),
 		"C08" => c08::replay(&r),
 		"C09" => c09::replay(&r),
